@@ -8,6 +8,7 @@ STB = ["Coq 8.16.1 kernel + vm_compute",
 
 def run(res):
     n = 250 if res.tier == "quick" else 5000
+    nconc = 6 if res.tier == "quick" else 60
     lib.standard_check(
         res, "c04", n,
         prop_files=["theories/Properties/C04.v"],
@@ -15,4 +16,6 @@ def run(res):
         theorem_note="Properties/C04.v: C04_regenerated_checkElectionForModify (regenerated function = model gate for every input), C04_gate_ok_iff, C04_change_needs_gate, C04_rejected_untouched, C04_frame",
         trusted=STB,
         assumptions=["per-message atomicity (sub-message interleavings: C11)", "session identifiers are distinct non-empty strings (uuid)",
-                     "model-free oracle: from the script and the server's own election responses decide which operations the property says must be rejected; those must be FAILED and, when a whole request must be rejected, RIB contents + held ids + counters + election state must be identical before and after"])
+                     "model-free oracle: from the script and the server's own election responses decide which operations the property says must be rejected; those must be FAILED and, when a whole request must be rejected, RIB contents + held ids + counters + election state must be identical before and after",
+                     "vh c04conc (oracle only, concurrent): the primary and a standby send multi-operation requests on their own sessions at the same time, the standby stamping its operations with the primary's id or with its own lower one; every operation of the standby must be answered FAILED and none of its entries may appear in the RIB, whatever the interleaving of the two handlers"],
+        extra_runs=[("c04conc", nconc)])
